@@ -10,7 +10,7 @@ to the REAL routine by harness/h_args.c, which reports what reached xerbla_, the
 byte reachable from the arguments before/after and the heap traffic during the call.
   correspondence: real (xerbla name, position, info) == generated chain        -> key corr:<family>
   property:       real position == documented table                           -> classified deviation keys (known
-                  findings: gstrs-LU-position, trsv-trans-C-rejected, *-type-unchecked, ...)
+                  findings: gstrs-LU-position, trsv-trans-C-rejected (c/z only since /repo 2acf694), *-type-unchecked, ...)
   no side effects on a rejected call (checksums, zero allocations)            -> side-effect:*, alloc-before-check:*
   valid calls: info >= 0 and no xerbla_
 """
@@ -96,7 +96,8 @@ def bases(fam, dt, prec):
             r = {"nprocs": nprocs, "fact": fact, "trans": trans, "refact": 0, "usepr": usepr, "lwork": lwork, "equed": equed, "R": R, "C": Cc}
             r.update(hdr("A", st, dt, GE)); r.update(dense("B", dt, nc, ldb)); r.update(dense("X", dt, nc, ldx)); out.append(r)
     elif fam == "gstrs":
-        for trans, lda in [(0, 7), (1, 4), (0, 5)]:
+        # CONJ is a documented value for s/d only (c/z header lists NOTRANS, TRANS): there it is a mutation atom
+        for trans, lda in [(0, 7), (1, 4), (0, 5)] + ([(2, 7)] if prec in "sd" else []):
             r = {"trans": trans}; r.update(hdr("L", SCP, dt, TRLU)); r.update(hdr("U", NCP, dt, TRU)); r.update(dense("B", dt, lda=lda, with_ncol=False)); out.append(r)
     elif fam == "gsrfs":
         for trans, equed, ldb, ldx in [(0, 0, 7, 7), (1, 1, 4, 7), (2, 2, 7, 4), (0, 3, 5, 5), (1, 0, 7, 7)]:
@@ -108,7 +109,7 @@ def bases(fam, dt, prec):
     elif fam == "gsequ":
         out.append(hdr("A", NC, dt, GE))
     elif fam == "trsv":
-        for u, t, d in ["LNU", "lnu", "UTN", "utn", "LtN", "UNu"]:
+        for u, t, d in ["LNU", "lnu", "UTN", "utn", "LtN", "UNu"] + (["LCU", "ucN"] if prec in "sd" else []):
             r = {"uplo": ord(u), "trans": ord(t), "diag": ord(d)}; r.update(hdr("L", SCP, dt, TRLU)); r.update(hdr("U", NCP, dt, TRU)); out.append(r)
     elif fam == "gemv":
         for t, st, ix, iy in [("N", NC, 1, 1), ("t", NCP, 1, 1), ("C", NC, 2, 1), ("c", NC, 1, -2), ("n", NCP, -1, 3), ("T", NC, 1, 1)]:
@@ -305,8 +306,8 @@ def classify(fam, prec, r, doc, real):
     if fam == "gsrfs" and doc == -7 and real in (0, -10, -11):
         return "gsrfs-equed-unchecked"
     if fam == "trsv":
-        if r["trans"] in (67, 99) and real == -2 and doc in (0, -3, -4, -5):
-            return "trsv-trans-C-rejected"
+        if prec in "cz" and r["trans"] in (67, 99) and real == -2 and doc in (0, -3, -4, -5):
+            return "trsv-trans-C-rejected"      # s/d accept 'C' since /repo 2acf694: there a rejection is a new violation
         if doc in (-4, -5) and not shape_bad("L" if doc == -4 else "U") and real in (0, -5):
             return "trsv-LU-type-unchecked"
     if fam == "gemv" and doc == -3 and r["A_nrow"] >= 0 and r["A_ncol"] >= 0 and real in (0, -5, -8):
